@@ -69,6 +69,16 @@ ASSUMPTIONS += [
     "source rows' values), so the effect rows are read from the training block.  60 (thorough: 800) "
     "more designs are generated over these columns only (family `o`)",
 ]
+ASSUMPTIONS += [
+    "grouping factors that are interactions of THREE or FOUR categorical variables: 60 (thorough: 1000) "
+    "more designs (family `w`) plus a small corpus whose grouping factor is a:b:c / a:b:c:d over f (3 "
+    "levels), g (4), h (2), cu (3), co (3), k (3 integer ids) in any order of the components (so the "
+    "level count of a middle component differs from the last one's most of the time), also written as "
+    "the nesting a/b/c (factors a, a:b, a:b:c), with a component through C(), or next to a two-way "
+    "factor over the same variables; judged by the same Spec.C05.check (cells in lexicographic order of "
+    "the components' levels, every row non-zero only in the slot of its own cell), and by all the later "
+    "stages (prediction, re-evaluation) like every other design",
+]
 TRUSTED = ["scipy.linalg.khatri_rao is modelled by the row product (Model/Matrices.lean:khatriRao)"]
 
 EFFECTS = ["1", "x", "f", "x + f", "0 + f", "f:x", "z", "0 + x", "h", "center(x)", "x + z", "C(k)",
@@ -77,6 +87,8 @@ EFFECTS = ["1", "x", "f", "x + f", "0 + f", "f:x", "z", "0 + x", "h", "center(x)
 GROUPINGS = ["g", "h", "g:h", "C(k)", "g + h", "g/h", "cu", "co", "k", "co:h", "T(g, 'v')"]
 # grouping factors that ask for sum-to-zero coding (known finding D30), drawn now and then
 SUM_GROUPINGS = ["S(g)", "C(h, Sum)", "g:S(h)"]
+WAY_CORPUS = ["y ~ (x | h:f:k)", "y ~ (1 | g:f:h)", "y ~ (0 + x | h/cu/g)", "y ~ (z | f:h:g:k)",
+              "y ~ (x | co:g:h)"]
 CORPUS = ["y ~ (1 | g) + (0 + f | g + h)", "y ~ (0 + h | g/f) + (1 | g:f)", "y ~ (f:h | g)", "y ~ (0 + f + h | g)", "y ~ (f | g + h) - (1 | h)", "y ~ (x | g:h)",
           "y ~ (1 | g/h)", "y ~ (0 + f | g)", "y ~ (f + x | co)", "y ~ x + (x | k)",
           "y ~ (1 | S(g))", "y ~ (x | C(h, Sum))", "y ~ (1 | T(g, 'v'))",
@@ -166,6 +178,37 @@ def gen_categorical_case(r):
     extra = r.choice(["", "", " + x", " + (1 | h)"])
     if _vars(extra) & _vars(grp) & cols:
         extra = ""
+    return f"y ~ ({eff} | {grp})" + extra
+
+
+# level counts in designs.gen_frame: f 3, g 4, h 2, cu 3, co 3, k 3 (integer ids)
+WAY_VARS = ["f", "g", "h", "cu", "co", "k"]
+WAY_EFFECTS = ["1", "x", "z", "0 + x", "x + z", "1 + x", "center(x)", "x:z", "f", "0 + f", "h", "f:x",
+               "C(k)", "0 + h", "cu", "g"]
+
+
+def gen_multiway(r):
+    """a group-specific term whose grouping factor is an interaction of THREE or FOUR categorical
+    variables with unequal level counts (any order of the components: the level count of a middle
+    component differs from the last one's most of the time), written as a:b:c, as a nesting a/b/c
+    (factors a, a:b, a:b:c), with a component wrapped in C(), or next to a two-way factor"""
+    eff = r.choice(WAY_EFFECTS)
+    pool = [v for v in WAY_VARS if v not in _vars(eff)]
+    k = 3 if r.random() < 0.7 else 4
+    comps = r.sample(pool, min(k, len(pool)))
+    if r.random() < 0.25:                       # one component through C()
+        i = r.randrange(len(comps))
+        comps[i] = f"C({comps[i]})"
+    shape = r.choice(["inter", "inter", "inter", "nest", "inter+two"])
+    if shape == "nest":
+        grp = "/".join(comps[:3])
+    elif shape == "inter+two":
+        grp = ":".join(comps) + " + " + ":".join(r.sample(comps, 2))
+    else:
+        grp = ":".join(comps)
+    extra = r.choice(["", "", " + x", " + (1 | " + comps[0] + ")"])
+    if shape == "nest" and "(1 |" in extra and eff != "0 + x":
+        extra = ""                             # (a/b/c already holds the factor a)
     return f"y ~ ({eff} | {grp})" + extra
 
 
@@ -612,7 +655,9 @@ def explore(tier, seed, res=None, replay=None):
                 "1500) more designs with one effect over a sum / nesting of grouping factors and a "
                 "group intercept for only one of the factors; 60 (thorough: 800) more designs over the "
                 "pandas categorical columns (ordered / unordered; bare, C(), T(), S(); grouping factor or "
-                "effect), and for every design that uses such a column one more new frame of training "
+                "effect), 60 (thorough: 1000) more designs whose grouping factor is an interaction / nesting of "
+                "three or four categorical variables with unequal level counts (f 3, g 4, h 2, cu 3, co 3, "
+                "k 3) in any component order, and for every design that uses a pandas categorical column one more new frame of training "
                 "rows whose categorical columns declare another category list (absent levels dropped, "
                 "order kept; unordered: now and then reordered); for 40% of the designs one model description "
                 "(model_description + DesignMatrices) evaluated on the frame and then on a second frame "
@@ -632,6 +677,10 @@ def explore(tier, seed, res=None, replay=None):
             cases.append((None, f"m{i}"))
         for i in range(60 if tier == "quick" else 800):
             cases.append((None, f"o{i}"))
+        for i, f in enumerate(WAY_CORPUS):
+            cases.append((f, f"wc{i}"))
+        for i in range(60 if tier == "quick" else 1000):
+            cases.append((None, f"w{i}"))
     reqs_spec, reqs_model, owners = [], [], []
     reqs_new, owners_new = [], []
     reqs_re, owners_re = [], []
@@ -639,7 +688,11 @@ def explore(tier, seed, res=None, replay=None):
         r = rng_for(seed, "c05", path)
         df = designs.gen_frame(r, n=r.randrange(12, 30))
         formula = f or (gen_multi(r) if str(path).startswith("m") else
-                        gen_categorical_case(r) if str(path).startswith("o") else gen_case(r))
+                        gen_categorical_case(r) if str(path).startswith("o") else
+                        gen_multiway(r) if str(path).startswith("w") else gen_case(r))
+        if str(path).startswith("w"):
+            res.count("formulas: grouping factor = interaction of three / four categorical variables "
+                      "with unequal level counts")
         if str(path).startswith("o"):
             res.count("formulas: pandas categorical columns as grouping factor / effect (bare, C, T, S)")
         if str(path).startswith("m"):
